@@ -8,6 +8,7 @@ import (
 	fp "path/filepath"
 	"strconv"
 	"strings"
+	"sync"
 	"time"
 )
 
@@ -95,3 +96,7 @@ func vImageObserve(dir string) {
 		}
 	}
 }
+
+func vShare(root interface{})        {}
+func vFileAccess(write bool)         {}
+func vLockHeld(mu *sync.RWMutex) int { return 0 }
